@@ -572,6 +572,13 @@ func c18EveryBucketCount(c *Ctx, n int) {
 		tail := []byte{7, 7, 7, 7, 7, 7, 7, 7, 7}
 		for _, name := range []string{"ReadFrom", "FromUnsafeBytes", "FromUnsafeBytes+tail", "UnmarshalBinary"} {
 			dst := roaring64.New()
+			if r.Chance(0.4) {
+				// a receiver that held something else before
+				for k := 0; k < 1+r.Intn(6); k++ {
+					dst.Add(r.Range(0, 5)<<32 | r.Range(0, 70000))
+				}
+				c.Count("bucket_count_receiver_previously_used")
+			}
 			var got int64
 			switch name {
 			case "ReadFrom":
